@@ -6,7 +6,98 @@ from .. import edgecases as EC
 TOL = 1e-11
 
 
+def derivative_monitors(run):
+    """Beyond the lattice (L1): the edge Jacobians against the numerically evaluated derivative of calc_error() along the boxplus perturbation of
+    each vertex (central differences + Richardson, ~1e-10 relative) on GENERIC float operands: headings within 1e-9..1e-6 of multiples of pi/2,
+    rotations of 1e-9..1e-3 rad, translations up to 1e4, w < 0, rotated offsets.  A monitor for off-lattice regions, not the deciding oracle."""
+    import math
+    import random
+    from graphslam.edge.edge_landmark import EdgeLandmark
+    from graphslam.edge.edge_odometry import EdgeOdometry
+    from graphslam.pose.r2 import PoseR2
+    from graphslam.pose.r3 import PoseR3
+    from graphslam.pose.se2 import PoseSE2
+    from graphslam.pose.se3 import PoseSE3
+    from graphslam.vertex import Vertex
+    from .. import build as B
+    rnd = random.Random(run.seed + 77)
+    n_runs = 1200 if run.tier == 'thorough' else 200
+
+    def heading():
+        r = rnd.random()
+        if r < 0.4:
+            return rnd.choice([0.0, math.pi / 2, -math.pi / 2, 3.0]) + rnd.choice([-1, 1]) * 10 ** rnd.uniform(-9, -6)
+        if r < 0.6:
+            return rnd.choice([-1, 1]) * 10 ** rnd.uniform(-9, -3)
+        return rnd.uniform(-3.0, 3.0)
+
+    def mag():
+        return rnd.choice([-1, 1]) * 10 ** rnd.uniform(-2, 4)
+
+    def rp(kind):
+        if kind == 'SE2':
+            return PoseSE2([mag(), mag()], heading())
+        ax = np.array([rnd.gauss(0, 1) for _ in range(3)])
+        ax /= np.linalg.norm(ax)
+        th = rnd.choice([10 ** rnd.uniform(-9, -3), rnd.uniform(0.01, 2.5)])
+        sgn = rnd.choice([1, -1])
+        return PoseSE3([mag(), mag(), mag()], list(sgn * ax * math.sin(th / 2)) + [sgn * math.cos(th / 2)])
+    worst = 0.0
+    for n in range(n_runs):
+        kind = 'SE2' if n % 2 == 0 else 'SE3'
+        fam = 'odo' if n % 4 < 2 else 'lm'
+        p1, p2 = rp(kind), rp(kind)
+        if fam == 'odo':
+            v1, v2 = Vertex(1, p1), Vertex(2, p2)
+            small = rp(kind)
+            small = type(small)(np.asarray(small)[:B.DIM[kind]] * 1e-3, np.asarray(small)[B.DIM[kind]:] if kind == 'SE3' else 0.3 * rnd.uniform(-1, 1))
+            z = (p2 - p1) + small                      # a measurement near the current relative pose (no half-turn / +-pi errors)
+            e = EdgeOdometry([1, 2], np.eye(B.CDIM[kind]), z, [v1, v2])
+        else:
+            P = PoseR2 if kind == 'SE2' else PoseR3
+            v1, v2 = Vertex(1, p1), Vertex(2, P([mag() for _ in range(B.DIM[kind])]))
+            e = EdgeLandmark([1, 2], np.eye(B.DIM[kind]), P([mag() for _ in range(B.DIM[kind])]), rp(kind), vertices=[v1, v2])
+        S = 1.0 + max(float(np.max(np.abs(np.asarray(v.pose)[:B.DIM[kind]]))) for v in (v1, v2))
+        try:
+            jacs = [np.asarray(J, dtype=float) for J in e.calc_jacobians()]
+        except Exception as ex:  # noqa
+            run.violation(dict(part='derivative-monitor', fam=fam, k=kind), 'exception %r' % (ex,), dict(p1=np.asarray(p1).tolist(), p2=np.asarray(p2).tolist()))
+            continue
+        run.count(key=('monitor', n), nontrivial=True)
+        h = 2e-4
+        for vi, v in enumerate((v1, v2)):
+            base = v.pose
+            cd = base.COMPACT_DIMENSIONALITY
+            cols = []
+            for j in range(cd):
+                def cdiff(hh):
+                    d = np.zeros(cd)
+                    d[j] = hh
+                    v.pose = base + d
+                    ep = np.asarray(e.calc_error(), dtype=float)
+                    v.pose = base + (-d)
+                    em = np.asarray(e.calc_error(), dtype=float)
+                    v.pose = base
+                    diff = ep - em
+                    if fam == 'odo' and kind == 'SE2':
+                        diff[2] = (diff[2] + math.pi) % (2 * math.pi) - math.pi
+                    return diff / (2 * hh)
+                cols.append((4 * cdiff(h / 2) - cdiff(h)) / 3)
+            D = np.array(cols).T
+            dv = float(np.max(np.abs(D - jacs[vi]))) if D.shape == jacs[vi].shape else float('inf')
+            worst = max(worst, dv / S)
+            if dv > 1.5e-7 * S:             # (measured on the unchanged tree: deviation/S <= 8e-9 over 15 000 comparisons)
+                run.violation(dict(part='derivative-monitor', fam=fam, k=kind, vertex=vi),
+                              'Jacobian w.r.t. vertex %d deviates from the numerically evaluated derivative by %.3g (> %.3g) for generic operands p1=%r p2=%r' % (
+                                  vi, dv, 1.5e-7 * S, np.asarray(p1).tolist(), np.asarray(p2).tolist()), dict(p1=np.asarray(p1).tolist(), p2=np.asarray(p2).tolist(), fam=fam))
+                break
+    run.notes['derivative_monitor_runs_on_generic_floats'] = n_runs
+    run.notes['derivative_monitor_max_deviation_over_scale'] = worst
+
+
 def check(run, cases=None):
+    if cases is None:
+        derivative_monitors(run)
     cases = cases if cases is not None else EC.gen_cases(run.tier, run.seed, with_chi2=False)
     pairs = EC.evaluate(cases, 12, 'MC_C01', run)
     run.rule = ('lattice edge cases (families: odometry R2/R3/SE2/SE3, landmark SE2->R2, SE3->R3, Rn->Rn with offsets) generated from VERIF_SEED; '
